@@ -313,12 +313,18 @@ func (ns *namesys) Publish(ctx context.Context, name ci.PrivKey, value path.Path
 
 	ipnsName := ipns.NameFromPeer(pid)
 	cacheKey := ipnsName.String()
+	// The resolver looks names up in the cache by their /ipns/<name> path, not
+	// by the bare name. The entry under that key has to be updated (and
+	// invalidated) too: otherwise a resolve right after publishing a new value
+	// keeps returning the value cached by an earlier resolve.
+	resolverCacheKey := ipnsName.AsPath().String()
 
 	span.SetAttributes(attribute.String("ID", pid.String()))
 	if err := ns.ipnsPublisher.Publish(ctx, name, value, options...); err != nil {
 		// Invalidate the cache. Publishing may _partially_ succeed but
 		// still return an error.
 		ns.cacheInvalidate(cacheKey)
+		ns.cacheInvalidate(resolverCacheKey)
 		span.RecordError(err)
 		return err
 	}
@@ -330,7 +336,15 @@ func (ns *namesys) Publish(ctx context.Context, name ci.PrivKey, value path.Path
 	if ttEOL := time.Until(publishOpts.EOL); ttEOL < ttl {
 		ttl = ttEOL
 	}
-	ns.cacheSet(cacheKey, value, ttl, time.Now())
+	now := time.Now()
+	ns.cacheSet(cacheKey, value, ttl, now)
+	if ttl > 0 {
+		ns.cacheSet(resolverCacheKey, value, ttl, now)
+	} else {
+		// cacheSet ignores a non-positive TTL; the previous value must not
+		// survive in the cache either.
+		ns.cacheInvalidate(resolverCacheKey)
+	}
 	return nil
 }
 
